@@ -27,6 +27,7 @@ type Build struct {
 	Errs []string // messages delivered through Config.HandleErr
 	Imp  types.Importer
 	Rec  *Recorder
+	Extra map[string]any // scratch space for property harnesses
 }
 
 // Event is one recorder notification.
@@ -149,4 +150,18 @@ func sharedBuiltin(pkg *gogen.Package, conf *gogen.Config) *types.Package {
 	gogen.VerifInitBuiltin(pkg, b, conf, true)
 	sharedBuiltins[key] = b
 	return b
+}
+
+// Where returns the first gogen frame of a recovered stack (function name without package path).
+func Where(stack string) string {
+	for _, l := range strings.Split(stack, "\n") {
+		if strings.HasPrefix(l, "github.com/goplus/gogen") && !strings.Contains(l, "verif") {
+			fn := l
+			if j := strings.LastIndex(fn, "("); j > 0 {
+				fn = fn[:j]
+			}
+			return strings.TrimPrefix(fn, "github.com/goplus/gogen")
+		}
+	}
+	return "?"
 }
